@@ -339,6 +339,9 @@ func (f *Format) Call(s *slip.Scope, args slip.List, depth int) (result slip.Obj
 // FormatArgs uses the provided args as if a format function would to append
 // to a buffer.
 func FormatArgs(s *slip.Scope, args slip.List, depth int) []byte {
+	if len(args) < 1 {
+		slip.ErrorPanic(s, depth, "a format control string is required")
+	}
 	cs, ok := args[0].(slip.String)
 	if !ok {
 		slip.TypePanic(s, depth, "control", args[0], "string")
